@@ -236,7 +236,7 @@ def derive_seed(seed: int, prop: str, sub: str, shard: int) -> int:
     return zlib.crc32(f'{seed}/{prop}/{sub}/{shard}'.encode())
 
 
-def _settings(n, tier, steps=None):
+def _settings(n, tier, steps=None, shrink=True):
     from hypothesis import HealthCheck, Phase, settings
 
     kw = dict(
@@ -247,7 +247,7 @@ def _settings(n, tier, steps=None):
         report_multiple_bugs=False,
         print_blob=False,
         suppress_health_check=list(HealthCheck),
-        phases=[Phase.explicit, Phase.generate, Phase.shrink],
+        phases=[Phase.explicit, Phase.generate, Phase.shrink] if shrink else [Phase.explicit, Phase.generate],
     )
     if steps is not None:
         kw['stateful_step_count'] = steps
@@ -378,15 +378,30 @@ def _run_machine(mod, sub, res, findings, seedval, n, tier, t0, budget_s):
     Wrapped.__name__ = M.__name__
     Wrapped.__qualname__ = M.__qualname__
     try:
-        run_state_machine_as_test(hypothesis.seed(seedval)(Wrapped), settings=_settings(n, tier, sub.steps[tier]))
+        # quick tier: Hypothesis' own shrinking of stateful programs can take minutes; the log is minimised greedily below instead
+        run_state_machine_as_test(hypothesis.seed(seedval)(Wrapped), settings=_settings(n, tier, sub.steps[tier], shrink=(tier == 'thorough')))
     except Violation as v:
-        log = state['last'].log if state['last'] is not None else None
+        log = list(state['last'].log) if state['last'] is not None else []
+        clause, detail = v.clause, v.detail
+        # greedy minimisation: drop one operation at a time (from the end) while the same clause still fails
+        t_min = time.time()
+        i = len(log) - 1
+        while i >= 1 and time.time() - t_min < SHRINK_BUDGET_S[tier]:
+            cand = log[:i] + log[i + 1:]
+            try:
+                sub.run({'log': cand})
+            except Violation as v2:
+                if v2.clause == clause:
+                    log, detail = cand, v2.detail
+            except Exception:  # noqa: BLE001
+                pass
+            i -= 1
         case = {'log': log}
         f = match_open_finding(mod, findings, sub.name, case, v)
         if f:
             res.excluded[f['key']] += 1
         else:
-            res.violation = (v.clause, v.detail, case)
+            res.violation = (clause, detail, case)
 
 
 # --------------------------------------------------------------------------- driver
